@@ -86,6 +86,25 @@ class Pop:
         return q
 
 
+def pop_copy(pop):
+    q = Pop.__new__(Pop)
+    q.n, q.labvar, q.seed = pop.n, pop.labvar, pop.seed
+    q.taxa = None if pop.taxa is None else list(pop.taxa)
+    q.grp = None if pop.grp is None else list(pop.grp)
+    q.ph0 = [list(r) for r in pop.ph0]
+    q.ph1 = [list(r) for r in pop.ph1]
+    q.recount()
+    return q
+
+
+def _recount(self):
+    self.count = [[a + b for a, b in zip(self.ph0[i], self.ph1[i])] for i in range(self.n)]
+    self.het = [[1 if c == 1 else 0 for c in self.count[i]] for i in range(self.n)]
+
+
+Pop.recount = _recount
+
+
 def build_pgmat(pop):
     from pybrops.popgen.gmat.DensePhasedGenotypeMatrix import DensePhasedGenotypeMatrix
     mat = numpy.array([pop.ph0, pop.ph1], dtype="int8")
@@ -441,3 +460,102 @@ def taxon_means(rows, ntrait_cols):
             a[0][c] += Fraction(vals[j])
         a[1] += 1
     return {k: [float(s / cnt) for s in sums] for k, (sums, cnt) in acc.items()}
+
+
+# ----------------------------------------------------------------------------
+# histories on one protocol object: state changes between two trials with the very same objects.
+# Each op is applied to the REAL objects (protocol, model, genotype matrix) through public setters or
+# in-place edits of the arrays they expose, and mirrored on the reference (Pop, Model, layout, variances).
+OPS_COMMON = ("gpmod-set", "gpmod-set-kind", "gpmod-edit-u", "gpmod-edit-beta", "taxa-set", "taxa-inplace",
+              "grp-set", "grp-inplace", "mat-inplace", "none")
+OPS_GE = ("var_err-set", "var_env-set", "var_rep-set", "nrep-set", "nenv-nrep-set", "rng-set")
+
+
+def op_applicable(op, pop, model, proto):
+    if op in ("taxa-set", "taxa-inplace"):
+        return pop.taxa is not None and pop.n >= 1
+    if op in ("grp-set", "grp-inplace"):
+        return pop.grp is not None
+    if op in OPS_GE:
+        return proto == "GE"
+    return True
+
+
+def relabel_names(pop):
+    """New unique names, not in sorted order and not the old ones (rotation of old + suffix)."""
+    n = pop.n
+    return [pop.taxa[(i + 1) % n] + "'" for i in range(n)]
+
+
+def apply_op(op, st, seed):
+    """st: dict(pop, model, pg, gm, pt, nenv, nrep_list, var (3 lists or None for TruePhenotyping), handler, mkrng)
+    Mutates the real objects and the reference in step; returns nothing."""
+    pop, model, pg, gm, pt = st["pop"], st["model"], st["pg"], st["gm"], st["pt"]
+    t = model.t
+    if op == "none":
+        return
+    if op in ("gpmod-set", "gpmod-set-kind"):
+        kind = model.kind if op == "gpmod-set" else ("ADL" if model.kind == "AL" else "AL")
+        m2 = Model(kind, t, model.named, seed + 1)
+        m2.trait = model.trait            # same trait names (columns keep their meaning), other effects
+        st["model"] = m2
+        st["gm"] = m2.build()
+        pt.gpmod = st["gm"]
+    elif op == "gpmod-edit-u":
+        gm.u_a[0, 0] += 1.5
+        gm.u_a[NMARK - 1, t - 1] -= 0.75
+        model.u_a = [list(r) for r in model.u_a]
+        model.u_a[0][0] += 1.5
+        model.u_a[NMARK - 1][t - 1] -= 0.75
+    elif op == "gpmod-edit-beta":
+        gm.beta[0, t - 1] += 2.25
+        model.beta = list(model.beta)
+        model.beta[t - 1] += 2.25
+    elif op == "taxa-set":
+        new = relabel_names(pop)
+        pg.taxa = numpy.array(new, dtype=object)
+        pop.taxa = new
+    elif op == "taxa-inplace":
+        new = relabel_names(pop)
+        for i, nm in enumerate(new):
+            pg.taxa[i] = nm
+        pop.taxa = new
+    elif op == "grp-set":
+        new = [g + 10 * (i % 2) for i, g in enumerate(pop.grp)][::-1]
+        pg.taxa_grp = numpy.array(new, dtype="int64")
+        pop.grp = new
+    elif op == "grp-inplace":
+        new = [g + 10 * (i % 2) for i, g in enumerate(pop.grp)][::-1]
+        pg.taxa_grp[:] = new
+        pop.grp = new
+    elif op == "mat-inplace":
+        # flip one allele of the first taxon at marker 0 (phase 0) and one of the last taxon at marker 2 (phase 1)
+        for (ph, i, k) in ((0, 0, 0), (1, pop.n - 1, NMARK - 1)):
+            pg.mat[ph, i, k] ^= 1
+            (pop.ph0 if ph == 0 else pop.ph1)[i][k] ^= 1
+        pop.recount()
+    elif op in ("var_err-set", "var_env-set", "var_rep-set"):
+        k = ("var_env-set", "var_rep-set", "var_err-set").index(op)
+        old = st["var"][k]
+        new = [{0.0: 4.0, 1.0: 0.0, 4.0: 1.0}.get(float(x), 1.0) for x in old]     # every trait's variance changes
+        setattr(pt, ("var_env", "var_rep", "var_err")[k], var_argument(new, seed + k))
+        st["var"][k] = new
+    elif op == "nrep-set":
+        new = [r % 2 + 1 + (1 if e == 0 else 0) for e, r in enumerate(st["nrep_list"])]
+        pt.nrep = numpy.array(new, dtype="int64")
+        st["nrep_list"] = new
+    elif op == "nenv-nrep-set":
+        nenv = 1 if st["nenv"] >= 2 else 2
+        new = [2, 1][:nenv]
+        pt.nenv = nenv
+        pt.nrep = numpy.array(new, dtype="int64") if nenv == 2 else 2
+        st["nenv"], st["nrep_list"] = nenv, new
+    elif op == "rng-set":
+        pt.rng = st["mkrng"]()
+    else:
+        raise ValueError(op)
+
+
+# ----------------------------------------------------------------------------
+# row-index alphabet for phenotype tables handed to estimate()
+INDEX_VARIANTS = ("range", "perm", "subset", "str", "dup")
